@@ -95,6 +95,9 @@ const B_EXTRA: [u16; 1] = [0xFFFF];
 /// Targeted family: form f aimed at address t, real/virtual.
 fn targeted(form: u64, ti: u64, real: bool) -> Option<(Machine, u32, String)> {
     let t = if ti < 17 { B[ti as usize] } else { B_EXTRA[0] };
+    targeted_at(form, t, real)
+}
+fn targeted_at(form: u64, t: u16, real: bool) -> Option<(Machine, u32, String)> {
     let mut m = Machine::user();
     m.real_traps = real; m.kb = Some(vec![b'k', b'q']); m.saved_sp = 0x2FF0;
     m.regs = [0x1234, t, 0x3100, 0x3200, 0, 0, 0xFD00, 0x3050];
@@ -144,6 +147,56 @@ fn run_targeted(form: u64, ti: u64, real: bool) -> Result<Option<bool>, (String,
     Ok(Some(violated))
 }
 
+// ---- history family: the same attempts, made after the OS itself has just executed / touched the target on the same simulator
+const PRE_AT: u16 = 0x5000;
+const PRE_NAMES: [&str; 3] = ["OUT", "PUTS", "GETC"];
+/// Runs one OS service call from user code at x5000 on `p` (which is left in user mode just after the call);
+/// returns the supervisor-space addresses the OS executed or accessed while serving it.
+fn preamble(p: &mut Pair, pre: u64) -> Result<Vec<u16>, (String, String)> {
+    let word = [0xF021u16, 0xF022, 0xF020][pre as usize];
+    p.sim.mem[PRE_AT].set(word);
+    for (k, c) in [0x4Fu16, 0x4B, 0].iter().enumerate() { p.sim.mem[PRE_AT + 0x100 + k as u16].set(*c); }
+    p.sim.reg_file[reg(0)].set(if pre == 1 { PRE_AT + 0x100 } else { 0x0041 });
+    p.sim.pc = PRE_AT;
+    let mut seen = std::collections::BTreeSet::new();
+    for _ in 0..3000 {
+        let pc = p.sim.pc;
+        if p.sim.psr().privileged() && !user(pc) { seen.insert(pc); }
+        p.sim.observer.clear();
+        match catch(|| p.sim.step_in()) { Ok(Ok(())) => {} Ok(Err(e)) => return Err(("machinery:preamble".into(), format!("preamble {} failed: {e:?}", PRE_NAMES[pre as usize]))), Err(m) => return Err((format!("panic:{}", panic_site(&m)), m)) }
+        for (a, _) in p.sim.observer.take_mem_accesses() { if a < 0x3000 { seen.insert(a); } }
+        if p.sim.pc == PRE_AT + 1 && !p.sim.psr().privileged() { return Ok(seen.into_iter().collect()); }
+    }
+    Err(("machinery:preamble".into(), format!("preamble {} did not return", PRE_NAMES[pre as usize])))
+}
+fn preamble_targets(pre: u64, real: bool) -> Vec<u16> {
+    static T: std::sync::OnceLock<Vec<Vec<u16>>> = std::sync::OnceLock::new();
+    T.get_or_init(|| (0..6).map(|i| {
+        let (m, _, _) = targeted_at(0, 0x3000, i % 2 == 1).unwrap();
+        let mut p = build(&m);
+        preamble(&mut p, i / 2).unwrap_or_default()
+    }).collect())[(pre * 2 + real as u64) as usize].clone()
+}
+fn run_history(pre: u64, form: u64, k: u64, real: bool) -> Result<Option<bool>, (String, String)> {
+    let targets = preamble_targets(pre, real);
+    let Some(&t) = targets.get(k as usize) else { return Ok(None) };
+    let Some((m, steps, what)) = targeted_at(form, t, real) else { return Ok(None) };
+    let what = format!("after a user-mode {} call served by the OS: {what}", PRE_NAMES[pre as usize]);
+    let mut p = build(&m);
+    preamble(&mut p, pre)?;
+    // back to the scenario's own user-mode state on the same simulator (public fields and the PSR port, as a front end would)
+    for i in 0..8 { p.sim.reg_file[reg(i)].set(m.regs[i as usize]); }
+    p.sim.pc = m.pc;
+    p.sim.write_mem(0xFFFC, lc3_ensemble::sim::mem::Word::new_init(m.psr), lc3_ensemble::sim::MemAccessCtx::omnipotent()).map_err(|e| ("machinery:psr".to_string(), format!("{e:?}")))?;
+    let mut violated = false;
+    for _ in 0..steps {
+        if p.sim.psr().privileged() { if let Err(m) = catch(|| p.sim.step_in()) { return Err((format!("panic:{}", panic_site(&m)), m)); } continue; }
+        let e = check_step(&mut p, &what)?;
+        if e != Expect::Clean { violated = true; if !real { break; } }
+    }
+    Ok(Some(violated))
+}
+
 fn run_sweep(ci: u64, w: u16) -> Result<Expect, (String, String)> {
     let mut m = context(ci);
     if m.pc < 0xFE00 { m.pokes.push((m.pc, w)); } else { m.regs[0] = w; }
@@ -153,7 +206,7 @@ fn run_sweep(ci: u64, w: u16) -> Result<Expect, (String, String)> {
 fn user_contexts(thorough: bool) -> Vec<u64> { (0..context_count(thorough)).filter(|i| { let m = context(*i); m.psr >> 15 == 1 && !m.ignore_priv }).collect() }
 
 pub fn run(ctx: &Ctx) -> Report {
-    let mut rep = Report::new("user mode, privilege checks on, real and virtual traps: (1) targeted: 15 access/transfer forms (LDR, STR, LDI/STI second hop, LD/ST/LDI/STI first hop by PC-relative reach, JMP/JSRR/JSR/BR-taken followed by the fetch, PC preset, RTI, PUTS with a pointer argument) each aimed at every address of the 18-address boundary set {x0000,x0001,x01FF,x0200,x2FFE,x2FFF|x3000,x3001,xFDFE,xFDFF|xFE00,xFE02,xFE04,xFE06,xFE10,xFFFC,xFFFE,xFFFF}; (2) every 16-bit word in every user-mode single-step context of the C08 grid. Oracle: an independent attempt classifier computed from the pre-state (fetch address, effective addresses in ISA order, RTI): an attempt outside x3000-xFDFF must be reported (virtual) or vectored with supervisor PSR, R6 = SSP-2, saved user PSR (real), leave the target word, keyboard queue, display buffer and recording-device log unchanged and the observer inside user space apart from the vector entry and two stack slots; steps whose addresses are all inside must not report a violation. non-trivial = steps classified as attempts");
+    let mut rep = Report::new("user mode, privilege checks on, real and virtual traps: (1) targeted: 15 access/transfer forms (LDR, STR, LDI/STI second hop, LD/ST/LDI/STI first hop by PC-relative reach, JMP/JSRR/JSR/BR-taken followed by the fetch, PC preset, RTI, PUTS with a pointer argument) each aimed at every address of the 18-address boundary set {x0000,x0001,x01FF,x0200,x2FFE,x2FFF|x3000,x3001,xFDFE,xFDFF|xFE00,xFE02,xFE04,xFE06,xFE10,xFFFC,xFFFE,xFFFF}; (2) every 16-bit word in every user-mode single-step context of the C08 grid; (3) history: the same 15 forms aimed at every supervisor-space address that the OS executed or accessed while serving a user-mode OUT / PUTS / GETC call made a moment earlier on the same simulator (non-initial states: anything the simulator remembers about an address from supervisor-mode use must not leak into user mode). Oracle: an independent attempt classifier computed from the pre-state (fetch address, effective addresses in ISA order, RTI): an attempt outside x3000-xFDFF must be reported (virtual) or vectored with supervisor PSR, R6 = SSP-2, saved user PSR (real), leave the target word, keyboard queue, display buffer and recording-device log unchanged and the observer inside user space apart from the vector entry and two stack slots; steps whose addresses are all inside must not report a violation. non-trivial = steps classified as attempts");
     let r = sweep(ctx, 15 * 18 * 2, 4, |k, acc| {
         let (form, ti, real) = (k / 36, k / 2 % 18, k % 2 == 1);
         match run_targeted(form, ti, real) {
@@ -164,6 +217,18 @@ pub fn run(ctx: &Ctx) -> Report {
         acc.sample(k, ctx.seed, 37, || targeted(form, ti, real).map(|x| x.2).unwrap_or_else(|| format!("form {form} target {ti} unreachable")));
     });
     rep.absorb(r);
+    // history family
+    let maxk = (0..6).map(|i| preamble_targets(i / 2, i % 2 == 1).len() as u64).max().unwrap_or(0);
+    let r = sweep(ctx, 3 * 15 * maxk * 2, 4, |i, acc| {
+        let (pre, form, k, real) = (i / (15 * maxk * 2), i / (maxk * 2) % 15, i / 2 % maxk, i % 2 == 1);
+        match run_history(pre, form, k, real) {
+            Ok(None) => {}
+            Ok(Some(v)) => { acc.evals += 1; acc.transitions += 40; acc.count("history_cases", 1); if v { acc.nontrivial += 1; acc.count("history_attempts", 1); } acc.outcomes.insert(mix(form + 1000 * (pre + 1), v as u64)); }
+            Err((sig, d)) => { acc.evals += 1; acc.violation(sig, format!("h:{pre}:{form}:{k}:{}", real as u8), d); }
+        }
+    });
+    rep.absorb(r);
+    rep.bound("history_targets_per_service", Json::i(maxk));
     let ucs = user_contexts(ctx.thorough());
     let n = ucs.len() as u64;
     let r = sweep(ctx, n * 65536, 1024, |k, acc| {
@@ -177,12 +242,13 @@ pub fn run(ctx: &Ctx) -> Report {
     rep.absorb(r);
     rep.bound("user_contexts", Json::i(n)); rep.bound("boundary_addresses", Json::i(18)); rep.bound("forms", Json::i(15));
     rep.require(rep.acc.get("targeted_attempts") > 150 && rep.acc.get("sweep_attempts") > 10_000, "attempts outside user space were made and judged");
+    rep.require(rep.acc.get("history_attempts") > 500, "attempts at addresses the OS had just executed were made and judged");
     rep.require(rep.acc.get("sweep_steps") - rep.acc.get("sweep_attempts") > 10_000, "clean steps were judged too");
     rep
 }
 pub fn replay(case: &str) -> Option<String> {
     let p: Vec<&str> = case.split(':').collect();
     let n = |i: usize| -> Option<u64> { p.get(i)?.parse().ok() };
-    let r = match *p.first()? { "t" => run_targeted(n(1)?, n(2)?, n(3)? == 1).map(|_| ()), "s" => run_sweep(n(1)?, n(2)? as u16).map(|_| ()), _ => return None };
+    let r = match *p.first()? { "t" => run_targeted(n(1)?, n(2)?, n(3)? == 1).map(|_| ()), "s" => run_sweep(n(1)?, n(2)? as u16).map(|_| ()), "h" => run_history(n(1)?, n(2)?, n(3)?, n(4)? == 1).map(|_| ()), _ => return None };
     r.err().map(|(s, d)| format!("[{s}] {d}"))
 }
